@@ -697,7 +697,7 @@ def run_trace(ctx, cases, flagsets, label, workers=4):
         s = line.strip().strip('"')
         if s.startswith("ACCEPT "):
             j = json.loads(s[7:].replace('\\"', '"'))
-            verdict[(j["id"], j["fs"])] = ("accept", None)
+            verdict[(j["id"], j["fs"])] = ("accept", j.get("cut", 0))
     return verdict
 
 
@@ -721,6 +721,9 @@ def validate(ctx, cases, label, report=True, beside=None):
             raise MachineryFailure("LifecycleTrace: no verdict for %s: an action of the recording is not enabled in the "
                                    "model (generator or harness defect)" % c["id"])
         if v[0] == "accept":
+            if v[1]:
+                raise MachineryFailure("%s: step %d lies outside the specified region of the model for flags = {} "
+                                       "(generator defect)" % (c["id"], v[1]))
             accepted.append(c["id"])
         else:
             todo.append((c, v[1]))
